@@ -387,6 +387,8 @@ pub struct Ctx<M> {
     pub mon: M,
     /// set when a transition trapped: the path ends
     pub dead: bool,
+    /// the stability threshold was raised while a block was partially ingested
+    pub threshold_raised_mid_ingestion: bool,
 }
 
 pub trait Oracle: Sync {
@@ -404,6 +406,8 @@ pub trait Oracle: Sync {
         _out: &mut Out,
     ) {
     }
+    /// Called before every transition (also during replays).
+    fn before(&self, _w: &mut World, _mon: &mut Self::Mon, _ev: &Ev, _check: bool) {}
     fn on_state(&self, w: &mut World, mon: &mut Self::Mon, hist: &[Ev], out: &mut Out);
     /// Digest of the monitor state that influences verdicts (part of the dedup key).
     fn mon_digest(&self, _mon: &Self::Mon) -> u64 {
@@ -436,6 +440,7 @@ impl<O: Oracle> Model for ChainModel<O> {
             last: None,
             mon: O::Mon::default(),
             dead: false,
+            threshold_raised_mid_ingestion: false,
         }
     }
 
@@ -448,13 +453,24 @@ impl<O: Oracle> Model for ChainModel<O> {
 
     fn apply(&self, s: &mut Self::S, ev: &Ev, check: bool, out: &mut Out) -> bool {
         let pre = snap(&s.w);
+        self.oracle.before(&mut s.w, &mut s.mon, ev, check);
         let applied = apply_ev(&mut s.w, ev);
+        if pre.ingesting && s.w.threshold() > pre.threshold {
+            s.threshold_raised_mid_ingestion = true;
+        }
         if let Applied::Trap(msg) = &applied {
             s.dead = true;
             if check && self.oracle.trap_is_violation() {
+                // signature of finding F9: the anchor finished ingesting but no child is
+                // stable any more because the threshold was raised mid-ingestion, so the
+                // pop at the end of ingestion unwraps None
+                let f9 = matches!(ev, Ev::Ingest { .. })
+                    && s.threshold_raised_mid_ingestion
+                    && msg.contains("Option::unwrap()")
+                    && msg.contains("canister/src/state.rs");
                 out.violation(
                     "trap",
-                    None,
+                    if f9 { Some("F9") } else { None },
                     json!({"event": ev, "panic": msg, "note": "block insertion, ingestion, upgrade or set_config trapped"}),
                 );
             }
